@@ -138,9 +138,9 @@ UNIT = {
         opfn('Div', 'div', [('quotient_reduced', 'r.0 == q_reduce(i_div(self.0, rhs.0))'), FIN]),
         opfn('Rem', 'rem', [('modulo', 'r.0 == q_modulo(self.0, rhs.0)')]),
         opfn('Neg', 'neg', [('negation', 'r.0 == i_minus(self.0)')]),
-        nfn('eq', [('equal_by_value', 'r == i_is_zero(i_cmp(self.0, rhs.0))')], path='impl PartialEq<FeelNumber> for FeelNumber::fn eq'),
+        nfn('eq', [('equal_by_value', 'r == i_is_zero(i_cmp(self.0, rhs.0))')], path='impl PartialEq<FeelNumber> for FeelNumber::fn eq', props=['C02', 'C09']),
         nfn('partial_cmp', [('order_by_value', 'r == Some(if i_is_zero(i_cmp(self.0, rhs.0)) { core::cmp::Ordering::Equal } else if i_is_pos(i_cmp(self.0, rhs.0)) { core::cmp::Ordering::Greater } else { core::cmp::Ordering::Less })')],
-            path='impl PartialOrd<FeelNumber> for FeelNumber::fn partial_cmp'),
+            path='impl PartialOrd<FeelNumber> for FeelNumber::fn partial_cmp', props=['C02', 'C09']),
     ],
 }
 
@@ -151,7 +151,9 @@ BOUNDED = {
                       'near-ties with sticky tails of every length, operands up to 40 orders of magnitude apart, exp arguments across the tiny-argument shortcuts - against CPython decimal (libmpdec) configured as decimal128 '
                       '(exp, ln and pow within 2 ulp, everything else exact). Classes recorded as known findings are excluded and counted.'}],
 }
-NOT_DECIDED = {'C02': ['the C decNumber library itself (rounding, digit arithmetic): outside Verus / Kani reach; only the bounded differential stand-in looks at it',
+BOUNDED['C09'] = BOUNDED['C02']
+NOT_DECIDED = {'C09': ['numbers: equality and order are the library comparison of the two values (number::FeelNumber::eq / partial_cmp, A-C); that this comparison is a total order on finite numbers is a fact about the C library (bounded differential only)'],
+               'C02': ['the C decNumber library itself (rounding, digit arithmetic): outside Verus / Kani reach; only the bounded differential stand-in looks at it',
                        'FEEL-level wiring in feel-evaluator (builders.rs closures, bifs/core.rs) beyond what the replayed known findings show',
                        'modulo where the library cannot form the remainder (known finding); finiteness of that fall-back']}
 ASSUMPTIONS = ['A-C: every C entry point of the bundled decNumber library computes the IEEE 754-2008 decimal128 operation of its name on its operands under the context it is handed (uninterpreted i_* / n_* functions)',
